@@ -198,5 +198,6 @@ def run(ck, ctx):
                 if iv and iv[0] == iv[1]:
                     keys.append(iv[0])
         ck.ob("C27.4", "trap-signatures", sorted(keys) == [0x20, 0x21, 0x22, 0x23, 0x24, 0x25], "built-in trap signatures for vectors %s" % [hex(k) for k in sorted(keys)], "src/sim/frame.rs:%s" % nw.line)
+    ck.include("C10", ctx, "C27.5", {"C10.4", "C10.5"}, "interrupt entry and RTI push/pop the frames")
     ck.assume("every JSR/JSRR goes through call_subroutine and every TRAP/interrupt/exception through call_interrupt (C08 effect rows)")
     ck.assume("frame_no overflow needs 2^64 calls (C16 table entry)")
